@@ -18,6 +18,7 @@ import (
 
 	"github.com/go-critic/go-critic/linter"
 
+	"verifharness/internal/absconv"
 	"verifharness/internal/common"
 	"verifharness/internal/fw"
 )
@@ -231,8 +232,23 @@ func Run(tier string, seed int64, outDir string) *common.Meta {
 	walkerFails := make([][]walkerFailure, len(histories))
 	fails := make([][]failure, len(histories))
 	stats := make([][3]int, len(histories))
+	// per-visit outcomes of the modelled visitors (input of the model execution, see model.go)
+	modelled := map[int]string{}
+	{
+		names := map[string]bool{}
+		for _, v := range absconv.Visitors(infos) {
+			names[v.Name] = true
+		}
+		for ci, info := range infos {
+			if names[info.Name] {
+				modelled[ci] = info.Name
+			}
+		}
+	}
+	observed := make([][]map[string]fw.Outcome, len(histories))
 	fw.Parallel(len(histories), func(hi int) {
 		h := histories[hi]
+		observed[hi] = make([]map[string]fw.Outcome, len(h))
 		set, err := fw.NewSet(fset, infos)
 		if err != nil {
 			fails[hi] = append(fails[hi], failure{hi, -1, 0, fw.Outcome{Panic: "NewSet: " + err.Error()}, fw.Outcome{}})
@@ -260,6 +276,12 @@ func Run(tier string, seed int64, outDir string) *common.Meta {
 			for ci, c := range set.Checkers {
 				got := fw.SafeCheck(c, f)
 				stats[hi][0]++
+				if name, ok := modelled[ci]; ok {
+					if observed[hi][at] == nil {
+						observed[hi][at] = map[string]fw.Outcome{}
+					}
+					observed[hi][at][name] = got
+				}
 				// walker protocol state (astwalk flags) must be back to its post-construction value after every file
 				if ws := fw.WalkerState(c); ws != walker0[ci] && !walkerReported[ci] && got.Panic == "" {
 					walkerReported[ci] = true
@@ -378,6 +400,15 @@ func Run(tier string, seed int64, outDir string) *common.Meta {
 		h := histories[i]
 		meta.AddSample(map[string]interface{}{"history": descs(h), "checkers": len(infos), "all_visits_equal_fresh": len(fails[i]) == 0})
 	}
+
+	// model execution: the Coq models of the modelled visitors over the same histories, converted file by file
+	modelStream(meta, outDir, infos, histories, usedList, fresh, func(hi, at int, name string) (fw.Outcome, bool) {
+		if observed[hi] == nil || observed[hi][at] == nil {
+			return fw.Outcome{}, false
+		}
+		o, ok := observed[hi][at][name]
+		return o, ok
+	})
 
 	// CLI: permuted and split package arguments
 	cliStream(meta, tier, seed, s1)
